@@ -258,20 +258,25 @@ class Ctx(_Reporting):
         self.trail.append(['C', tag, True, True, None]); self.pos += 1; self.kept = self.pos
         return True
 
-    def add_fact(self, tag, zbuilder):
-        """assert a side constraint (fresh quotient definitions, clock monotonicity); deterministic on replay"""
+    def add_fact(self, tag, zbuilder, fix_model=None):
+        """assert a side constraint (fresh quotient definitions, clock monotonicity); deterministic on replay.
+        fix_model(model dict idx->int): make the cached model satisfy the new fact (else the model is dropped)."""
+        if self.model is not None:
+            if fix_model is not None:
+                fix_model(self.model)
+            else:
+                self.model = None
         if self.pos < len(self.trail):
             ent = self.trail[self.pos]
             if ent[0] != 'A' or ent[1] != tag:
                 raise RuntimeError("non-deterministic replay (fact): recorded %r, now %r" % (ent[:2], tag))
             if self.pos >= self.kept:
-                self.solver.add(zbuilder()); self.kept = self.pos + 1; self.model = None
+                self.solver.add(zbuilder()); self.kept = self.pos + 1
             self.pos += 1
             return
         self.solver.add(zbuilder())
         self.trail.append(['A', tag, True, False, None])
         self.pos += 1; self.kept = self.pos
-        self.model = None
 
     def fresh(self, prefix):
         """a fresh integer variable whose name is a deterministic function of the position in the path"""
@@ -281,7 +286,9 @@ class Ctx(_Reporting):
     def pick(self, n, tag):
         """symbolic choice in range(n): a solver variable the engine branches on"""
         idx = self.newvar("ch!%s" % tag)
-        self.add_fact(('ch', tag, n), lambda: z3.And(self.zvars[idx] >= 0, self.zvars[idx] < n))
+        def fix(model):
+            if not 0 <= model.get(idx, 0) < n: model[idx] = 0
+        self.add_fact(('ch', tag, n), lambda: z3.And(self.zvars[idx] >= 0, self.zvars[idx] < n), fix)
         v = self.num(idx)
         for j in range(n - 1):
             if v == j:
@@ -541,7 +548,11 @@ class SymNum:
             if ceil:
                 return z3.And(me.d * (q - 1) < num, num <= me.d * q)
             return z3.And(me.d * q <= num, num < me.d * q + me.d)
-        c.add_fact(('q', idx, ceil), build)
+        def fix(model):
+            num = me.k
+            for i, v in me.c.items(): num += v * model.get(i, 0)
+            model[idx] = -((-num) // me.d) if ceil else num // me.d
+        c.add_fact(('q', idx, ceil), build, fix)
         return SymNum({idx: 1}, 0, 1)
 
     def __floor__(self): return self._quot(False)
